@@ -1083,7 +1083,10 @@ class VariableComputation(DcopComputation):
         VariableComputation.
 
         """
-        value = random.choice(self.variable.domain)
+        # index-based draw: numpy's choice() first converts the domain to an array,
+        # which turns the int values of a domain mixing str and int into strings
+        domain = self.variable.domain
+        value = domain[random.randint(len(domain))]
         self.value_selection(value)
 
     def _on_value_selection(self, val, cost, cycle_count):
